@@ -209,34 +209,39 @@ def override_case(args):
     from twosigma.memento.storage_memory import MemoryStorageBackend
 
     top = scratch_dir("c18o")
-    out = {"evaluations": 1, "states": 1, "transitions": 1, "traces": 1, "violations": [], "outcomes": []}
-    try:
-        A, B = os.path.join(top, "A", "w"), os.path.join(top, "B", "w")
-        os.makedirs(A)
-        os.makedirs(B)
-        base_o = {"type": "filesystem", "meta": False, "cache": None, "readonly": None, "runner": None}
+    out = {"evaluations": 1, "states": 1, "transitions": 2, "traces": 1, "violations": [], "outcomes": []}
+    base_o = {"type": "filesystem", "meta": False, "cache": None, "readonly": None, "runner": None}
+
+    def mk_env(A, B):
+        """The environment whose cluster 'ca' is configured for directory A / option values X and overridden by explicit
+        arguments pointing to B / other values. Returns (environment, options the result must behave like)."""
         cfgA = storage_dict(dict(base_o, meta=(which == "metadata_path")), A)
+        st = None
         if which == "path":
             st = FilesystemStorageBackend(config=cfgA, path=os.path.join(B, "d"))
-            want_o, want_base = base_o, B
+            want_o = base_o
         elif which == "metadata_path":
             st = FilesystemStorageBackend(config=dict(cfgA, path=os.path.join(B, "d")), metadata_path=os.path.join(B, "md"))
-            want_o, want_base = dict(base_o, meta=True), B
+            want_o = dict(base_o, meta=True)
+        elif which == "metadata_path-reset":  # the configuration separates the metadata, the argument puts it back under path
+            st = FilesystemStorageBackend(config=storage_dict(dict(base_o, meta=True), B), metadata_path=os.path.join(B, "d"))
+            want_o = base_o
         elif which == "memory_cache_mb":
             st = FilesystemStorageBackend(config=dict(storage_dict(base_o, B), memory_cache_mb=0), memory_cache_mb=1)
-            want_o, want_base = dict(base_o, cache=1), B
+            want_o = dict(base_o, cache=1)
+        elif which == "memory_cache_mb-zero":  # the configuration asks for a cache, the argument switches it off
+            st = FilesystemStorageBackend(config=dict(storage_dict(base_o, B), memory_cache_mb=1), memory_cache_mb=0)
+            want_o = base_o
         elif which == "readonly-true":
             st = FilesystemStorageBackend(config=dict(storage_dict(base_o, B), readonly=False), read_only=True)
-            want_o, want_base = dict(base_o, readonly=True), B
+            want_o = dict(base_o, readonly=True)
         elif which == "readonly-false":
             st = FilesystemStorageBackend(config=dict(storage_dict(base_o, B), readonly=True), read_only=False)
-            want_o, want_base = dict(base_o, readonly=False), B
+            want_o = dict(base_o, readonly=False)
         elif which == "storage-object":
-            st = None
-            want_o, want_base = dict(base_o, type="memory"), B
+            want_o = dict(base_o, type="memory")
         elif which == "runner-object":
-            st = None
-            want_o, want_base = dict(base_o, runner="null"), B
+            want_o = dict(base_o, runner="null")
         if which == "storage-object":
             cl = m.FunctionCluster(config=cluster_dict(base_o, B), storage=MemoryStorageBackend())
         elif which == "runner-object":
@@ -245,6 +250,13 @@ def override_case(args):
             cl = m.FunctionCluster(name="ca", storage=st)
         env = m.Environment(name="e", base_dir=B, repos=[m.ConfigurationRepository(config={"name": "r", "clusters": {"ca": cluster_dict(base_o, A)}},
                                                                                   clusters={"ca": cl})])
+        return env, want_o
+
+    try:
+        A, B = os.path.join(top, "A", "w"), os.path.join(top, "B", "w")
+        os.makedirs(A)
+        os.makedirs(B)
+        env, want_o = mk_env(A, B)
         got = probe(env, B)
         B2 = os.path.join(top, "B2", "w")
         os.makedirs(B2)
@@ -254,6 +266,22 @@ def override_case(args):
             diff = sorted(k for k in set(got) | set(want) if got.get(k) != want.get(k)) + (["wrote-under-config-path"] if leaked else [])
             out["violations"].append(("override|%s|differs:%s" % (which, "+".join(diff)[:60]),
                                       "explicit argument %s does not override the configuration: differs in %s" % (which, diff), {"override": which}))
+        elif which not in ("storage-object",):
+            # the overridden environment, dumped and rebuilt, still behaves like the override
+            A3, B3 = os.path.join(top, "A3", "w"), os.path.join(top, "B3", "w")
+            os.makedirs(A3)
+            os.makedirs(B3)
+            env3, _ = mk_env(A3, B3)
+            try:
+                g3 = probe(m.Environment(config=env3.to_dict()), B3)
+            except Exception as e:
+                g3 = {"rebuild-raised": repr(e)[:200]}
+            leaked = os.path.isdir(os.path.join(A3, "d")) or os.path.isdir(os.path.join(A3, "md"))
+            if g3 != want or leaked:
+                diff = sorted(k for k in set(g3) | set(want) if g3.get(k) != want.get(k)) + (["wrote-under-config-path"] if leaked else [])
+                out["violations"].append(("override-rebuild|%s|differs:%s" % (which, "+".join(diff)[:60]),
+                                          "environment with explicit argument %s, dumped with to_dict() and rebuilt, differs in %s: %s\ndump=%s"
+                                          % (which, diff, {k: g3.get(k) for k in diff}, json.dumps(env3.to_dict())[:400]), {"override": which}))
         out["outcomes"].append("override|%s" % which)
     finally:
         rm(top)
@@ -329,7 +357,7 @@ def priority_case(args):
 def run(ctx):
     ctx.rule = ("options: storage type x metadata_path x memory_cache_mb x readonly {absent, false, true} x runner {absent, local, null} "
                 "(%d combinations) x supplied as inline dict / JSON files / YAML with a template parameter, each compared by behavioural "
-                "probes with the constructor-built twin, then dumped and rebuilt; 7 explicit-argument overrides; repository lists of "
+                "probes with the constructor-built twin, then dumped and rebuilt; 9 explicit-argument overrides (each also dumped and rebuilt); repository lists of "
                 "length 1..3 over cluster-name subsets in every order, also with a prepend / append after a first resolution. "
                 "distinct = (options, supply form) / overrides / repository lists." % len(options()))
     tasks = [(o, how) for o in options() for how in ("dict", "json", "yaml")]
@@ -337,7 +365,7 @@ def run(ctx):
     b = option_case(tasks[5])
     ctx.selfcheck("one case gives identical observations twice", a["violations"] == b["violations"])
     ctx.merge(pmap(option_case, tasks, chunksize=4))
-    ctx.merge(pmap(override_case, ["path", "metadata_path", "memory_cache_mb", "readonly-true", "readonly-false", "storage-object", "runner-object"], chunksize=1))
+    ctx.merge(pmap(override_case, ["path", "metadata_path", "metadata_path-reset", "memory_cache_mb", "memory_cache_mb-zero", "readonly-true", "readonly-false", "storage-object", "runner-object"], chunksize=1))
     subsets = [(), ("ca",), ("cb",), ("ca", "cb")]
     ptasks = []
     for n in (1, 2, 3):
